@@ -656,7 +656,7 @@ def _subsets(n):
 
 
 BOUNDS = {
-    "quick": dict(max_internal=2, reduced_internal=3, deep_internal=0, fn_arity=2, arr_max=3),
+    "quick": dict(max_internal=2, reduced_internal=3, deep_internal=0, fn_arity=4, arr_max=3),
     "thorough": dict(max_internal=3, reduced_internal=4, deep_internal=4, fn_arity=4, arr_max=4),
 }
 
@@ -868,7 +868,6 @@ def rendered_formulas(tier="quick", seed=0, reopen=True, shard=None, groups=None
     batch_no = 0
     for group in groups or GROUPS:
         it = gen_group(group, tier, seed)
-        lo = 0
         while True:
             chunk = list(itertools.islice(it, DOC_CASES))
             if not chunk:
@@ -881,4 +880,3 @@ def rendered_formulas(tier="quick", seed=0, reopen=True, shard=None, groups=None
                 for rec in render_cases(cases, path, reopen=reopen):
                     if rec["text"][0] == "ok":
                         yield rec["text"][1]
-            lo += len(chunk)
